@@ -1,6 +1,8 @@
 SPECIFICATION Spec
 CONSTANTS
   InitStore <- MC_InitStore
+  Asks <- MC_AsksMain
+  RGroups <- MC_RMain
   VarLists <- MC_VarListsAll
   BaseStore <- MC_BaseStore
   CutArgs <- MC_CutsAll
